@@ -499,7 +499,6 @@ impl Run {
 fn connect(kind: &str, small_rcvbuf: bool) -> Result<(Cl, Srv), String> {
     let sock = socket2::Socket::new(socket2::Domain::IPV4, socket2::Type::STREAM, None).map_err(|e| format!("socket:{e}"))?;
     if small_rcvbuf { sock.set_recv_buffer_size(4096).map_err(|e| format!("rcvbuf:{e}"))?; }
-    sock.set_reuse_address(true).ok();
     let addr: std::net::SocketAddr = "127.0.0.1:0".parse().unwrap();
     sock.bind(&addr.into()).map_err(|e| format!("bind:{e}"))?;
     sock.listen(8).map_err(|e| format!("listen:{e}"))?;
@@ -752,8 +751,11 @@ fn gen_cases(seed: u64, thorough: bool) -> Vec<String> {
                 if sub { g.simple("N"); }
                 g.simple("V");
                 // late responses for everything that has returned, then residue probes
-                for (c, l) in &started { if *l != "pend" { g.respond(*c); } }
+                // residue probes before the late responses (a late response would clear a leaked
+                // entry), and once more after them
                 for (c, l) in &started { if *l != "pend" { g.probe(*c); } }
+                for (c, l) in &started { if *l != "pend" { g.respond(*c); } }
+                if idx % 2 == 0 { for (c, l) in &started { if *l != "pend" { g.probe(*c); } } }
                 let c = g.start("S").unwrap(); g.respond(c);
                 if idx % 4 == order { let fk = faults_of(kind)[idx % faults_of(kind).len()]; g.fault("F", fk); g.start("S"); }
                 if sub { g.simple("Q"); }
